@@ -1548,6 +1548,7 @@ class Node:
         [(parent_key, data)]
         ```
         """
+        calc_id = self._tree.calc_data_id
         #: For nodes with multiple occurrences: index of the first one
         #: For typed nodes, we must also check if the `kind` matches, before
         #: simply store a reference.
@@ -1590,19 +1591,21 @@ class Node:
             # first occurrence and do not call the mapper
             node_kind = getattr(node, "kind", None)
 
-            clone_idx, clone_kind, clone_data = clone_idx_and_kind_map.get(
+            clone_idx, clone_kind, clone_calc_id = clone_idx_and_kind_map.get(
                 data_id, (None, None, None)
             )
             if clone_idx:
                 # (a custom data_id may be shared by different data objects)
-                if node_kind == clone_kind and (
-                    node_data is clone_data or node_data == clone_data
-                ):
+                if node_kind == clone_kind and calc_id(node_data) == clone_calc_id:
                     yield (parent_idx, clone_idx)
                     continue
             elif node.is_clone():
                 # First instance of a clone node: take a note
-                clone_idx_and_kind_map[data_id] = (id_gen, node_kind, node_data)
+                clone_idx_and_kind_map[data_id] = (
+                    id_gen,
+                    node_kind,
+                    calc_id(node_data),
+                )
 
             # If node.data is more complex than a simple string, or if we use a
             # custom data_id, we store data as a dict instead of a str:
